@@ -17,6 +17,8 @@ pub fn reset() {
     BLOCKS.lock().unwrap().clear();
     NEXT_BLK.store(1, Ordering::SeqCst);
     ALLOC_COUNT.store(0, Ordering::SeqCst);
+    CALL_ALLOCS.store(0, Ordering::SeqCst);
+    FAIL_AT.store(0, Ordering::SeqCst);
 }
 
 /// id of the live recorded block containing `p`, 0 if none (dangling / not recorded)
@@ -32,8 +34,50 @@ pub fn block_of(p: *const u8) -> i64 {
     0
 }
 
+/// inside a library call (allocations made there are the library's)
+pub static IN_LIB: AtomicUsize = AtomicUsize::new(0);
+/// allocations made inside the current library call
+pub static CALL_ALLOCS: AtomicUsize = AtomicUsize::new(0);
+
+/// Scope of a library call: allocations are recorded (the harness's own bookkeeping inside
+/// callbacks is bypassed by `ev!`).  Restores the previous state also when unwinding.
+pub struct LibScope {
+    saved_bypass: usize,
+}
+impl LibScope {
+    pub fn enter() -> LibScope {
+        let saved = crate::events::BYPASS.swap(0, Ordering::SeqCst);
+        IN_LIB.fetch_add(1, Ordering::SeqCst);
+        LibScope { saved_bypass: saved }
+    }
+}
+impl Drop for LibScope {
+    fn drop(&mut self) {
+        IN_LIB.fetch_sub(1, Ordering::SeqCst);
+        crate::events::BYPASS.store(self.saved_bypass, Ordering::SeqCst);
+    }
+}
+pub fn lib<R>(f: impl FnOnce() -> R) -> R {
+    let _s = LibScope::enter();
+    f()
+}
+
 fn recording() -> bool {
-    RECORD_ALLOC.load(Ordering::SeqCst) && !bypassed()
+    RECORD_ALLOC.load(Ordering::SeqCst) && IN_LIB.load(Ordering::SeqCst) > 0 && !bypassed()
+}
+fn recording_raw() -> bool {
+    RECORD_ALLOC.load(Ordering::SeqCst) && IN_LIB.load(Ordering::SeqCst) > 0
+}
+fn known(p: *mut u8) -> bool {
+    // never while the harness itself is allocating / logging (the BLOCKS lock may be held)
+    if !RECORD_ALLOC.load(Ordering::SeqCst) || bypassed() {
+        return false;
+    }
+    let _b = Bypass::new();
+    match BLOCKS.lock() {
+        Ok(g) => g.iter().any(|b| b.0 == p as usize),
+        Err(_) => false,
+    }
 }
 
 unsafe impl GlobalAlloc for Rec {
@@ -42,10 +86,13 @@ unsafe impl GlobalAlloc for Rec {
             return System.alloc(l);
         }
         let _b = Bypass::new();
-        let k = ALLOC_COUNT.fetch_add(1, Ordering::SeqCst) + 1;
+        ALLOC_COUNT.fetch_add(1, Ordering::SeqCst);
+        let k = CALL_ALLOCS.fetch_add(1, Ordering::SeqCst) + 1;
         if FAIL_AT.load(Ordering::SeqCst) == k {
             crate::ev!("\"ev\":\"alloc_fail\",\"size\":{},\"align\":{}", l.size(), l.align());
             crate::events::flush();
+            // whatever follows is the process ending: nothing more is recorded
+            RECORD_ALLOC.store(false, Ordering::SeqCst);
             return std::ptr::null_mut();
         }
         let p = System.alloc(l);
@@ -55,7 +102,7 @@ unsafe impl GlobalAlloc for Rec {
         p
     }
     unsafe fn dealloc(&self, p: *mut u8, l: Layout) {
-        if recording() {
+        if known(p) {
             let _b = Bypass::new();
             let mut g = BLOCKS.lock().unwrap();
             let id = match g.iter().position(|b| b.0 == p as usize) {
@@ -66,22 +113,23 @@ unsafe impl GlobalAlloc for Rec {
             if id != 0 {
                 crate::ev!("\"ev\":\"dealloc\",\"p\":{},\"size\":{},\"align\":{}", id, l.size(), l.align());
             }
-        } else if RECORD_ALLOC.load(Ordering::SeqCst) {
-            // the harness frees something while bypassed: forget the block if it was recorded
-            let _b = Bypass::new();
-            if let Ok(mut g) = BLOCKS.lock() {
-                if let Some(i) = g.iter().position(|b| b.0 == p as usize) {
-                    g.remove(i);
-                }
-            }
         }
         System.dealloc(p, l)
     }
     unsafe fn realloc(&self, p: *mut u8, l: Layout, new: usize) -> *mut u8 {
-        if !recording() {
+        if !known(p) && !recording() {
             return System.realloc(p, l, new);
         }
         let _b = Bypass::new();
+        if recording_raw() {
+            let k = CALL_ALLOCS.fetch_add(1, Ordering::SeqCst) + 1;
+            if FAIL_AT.load(Ordering::SeqCst) == k {
+                crate::ev!("\"ev\":\"alloc_fail\",\"size\":{},\"align\":{}", new, l.align());
+                crate::events::flush();
+                RECORD_ALLOC.store(false, Ordering::SeqCst);
+                return std::ptr::null_mut();
+            }
+        }
         let q = System.realloc(p, l, new);
         let mut g = BLOCKS.lock().unwrap();
         let old = match g.iter().position(|b| b.0 == p as usize) {
